@@ -203,3 +203,12 @@ Proof.
   - cbn. rewrite upd_nth_same, Hj. auto.
   - cbn. rewrite upd_nth_same, Ha. auto.
 Qed.
+
+(* Run.ReadM evaluates the table once *)
+Lemma multi_final_spec : forall mc rows qkeys muts,
+  multi_final mc rows qkeys muts =
+  (length (fst (read_table_m mc rows)), run_session (multi_ops mc rows qkeys muts)).
+Proof.
+  intros. unfold multi_final, run_session, multi_ops. cbn [fold_left step app]. unfold do_read_m.
+  destruct (read_table_m mc rows) as [items e]. reflexivity.
+Qed.
